@@ -99,3 +99,54 @@ def v6_dfa(lower):
         if ph == 'CC': return g <= maxg_comp                            # ends with '::'
         return False
     return ('G0', 0, False, 0, DEAD), step, accepting, (lambda st: st == DEAD)
+
+
+def v6_struct(lower):
+    """Structure of an IPv6 address up to (and excluding) a dotted-quad tail.
+    state = (phase, hex groups, seen '::', digits in the current group, current group is decimal only)
+    On '.', where the statement allows the quad to start (at the beginning of the current group), the automaton stops
+    with the verdict ('tail', k): the last k symbols plus the rest of the input must be a dotted quad (judged by the
+    IPv4 rules).  lower=True: RFC 5321 limits, and the verdict is only demanded when the group can be a quad's
+    first octet (1-3 decimal digits); lower=False: RFC 4291 limits, any group content (the quad rules reject it)."""
+    maxg_comp = 6 if lower else 7
+    maxg_comp4 = 4 if lower else 5
+    def step(st, b):
+        if st == DEAD: return DEAD
+        ph, g, comp, nd, dec = st
+        isdig = b in DIGITS
+        if isdig or b in HEXLETTERS:
+            if ph in ('G0', 'C', 'CC'):
+                g2 = g + 1
+                if g2 > (maxg_comp if comp else 8): return DEAD
+                return ('G', g2, comp, 1, isdig)
+            if ph == 'G':
+                if nd + 1 > 4: return DEAD
+                return ('G', g, comp, nd + 1, dec and isdig)
+            return DEAD
+        if b == COLON:
+            if ph == 'G': return ('C', g, comp, 0, False)
+            if ph == 'G0': return ('C0', g, comp, 0, False)
+            if ph == 'C0': return ('CC', g, True, 0, False)
+            if ph == 'C':
+                if comp or g > maxg_comp: return DEAD
+                return ('CC', g, True, 0, False)
+            return DEAD
+        if b == DOT:
+            if ph != 'G': return DEAD
+            hexgroups = g - 1
+            if comp and hexgroups > maxg_comp4: return DEAD
+            if not comp and hexgroups != 6: return DEAD
+            if lower and not (dec and nd <= 3): return ('TAIL-OPTIONAL', nd)
+            return ('TAIL', nd)
+        return DEAD
+    def accepting(st):
+        if st == DEAD or st[0] in ('TAIL', 'TAIL-OPTIONAL'): return False
+        ph, g, comp, nd, dec = st
+        if ph == 'G': return (g == 8) if not comp else g <= maxg_comp
+        if ph == 'CC': return g <= maxg_comp
+        return False
+    def terminal(st):
+        if st != DEAD and st[0] == 'TAIL': return ('tail', st[1])
+        if st != DEAD and st[0] == 'TAIL-OPTIONAL': return ('tail-optional', st[1])
+        return None
+    return ('G0', 0, False, 0, False), step, accepting, (lambda st: st == DEAD), terminal
